@@ -213,8 +213,8 @@ impl SimDir {
         self.cv.notify_all();
     }
 
-    /// Central hook: gate handling, fault decision, logging.  Returns Err if the op must fail.
-    fn op(&self, kind: K, path: &Path, data: Option<&[u8]>) -> io::Result<()> {
+    /// Gate handling: holds the calling thread if a gate matches this operation.
+    fn gate(&self, kind: K, path: &Path) {
         let thread = thread_name();
         let mut st = self.st.lock().unwrap();
         // gates (on lock files only when the gate names a lock file explicitly: the meta lock is polled and a holder
@@ -251,6 +251,16 @@ impl SimDir {
                 st.gates[i].done = true;
             }
         }
+    }
+
+    /// Central hook: gate handling, fault decision, logging.  Returns Err if the op must fail.
+    fn op(&self, kind: K, path: &Path, data: Option<&[u8]>) -> io::Result<()> {
+        // (a lock file is gated by `open_write` itself, before the file exists)
+        if !is_lock(path) {
+            self.gate(kind, path);
+        }
+        let thread = thread_name();
+        let mut st = self.st.lock().unwrap();
         st.op_count += 1;
         // faults
         let mut fail = false;
@@ -348,6 +358,10 @@ impl Directory for SimDir {
     }
     fn open_write(&self, path: &Path) -> Result<WritePtr, OpenWriteError> {
         let ino;
+        if is_lock(path) {
+            // a thread held here has not taken the lock yet
+            self.gate(K::Create, path);
+        }
         {
             let mut st = self.st.lock().unwrap();
             if st.files.contains_key(path) {
